@@ -82,8 +82,58 @@ func analyse(prop, repo, verifRoot string, v core.Variant) (out *runOutput) {
 	return
 }
 
+// analyseMany loads the tree once and evaluates several rule sets on sub-contexts that share the program (used by the
+// seed matrix and the benign-corpus tools; registered checks always run one property per process).
+func analyseMany(props []string, repo, verifRoot string, v core.Variant, dir string) int {
+	base, err := core.Load(repo, v)
+	known, kerr := core.LoadKnown(filepath.Join(verifRoot, "known_findings.json"))
+	code := 0
+	for _, prop := range props {
+		out := &runOutput{Property: prop, Variant: v.Name, Repo: repo, Counts: map[string]int{}}
+		func() {
+			start := time.Now()
+			defer func() {
+				if r := recover(); r != nil {
+					out.Fatal = fmt.Sprintf("analyser panic: %v\n%s", r, debug.Stack())
+				}
+				out.WallS = time.Since(start).Seconds()
+			}()
+			rs := rules.Registry[prop]
+			switch {
+			case rs == nil:
+				out.Fatal = "no rule set for property " + prop
+				return
+			case err != nil:
+				out.Fatal = err.Error()
+				return
+			case kerr != nil:
+				out.Fatal = kerr.Error()
+				return
+			}
+			c := base.Sub()
+			c.Prop = prop
+			rs.Run(c)
+			res := c.Finish(known)
+			out.Obligations, out.Violations, out.Known, out.Counts, out.PerRule = res.Obligations, res.Violations, res.Known, res.Counts, res.PerRule
+			out.Stats, out.Packages, out.Files, out.Notes = c.Stats, len(c.Pkgs), c.NFiles, c.Notes
+		}()
+		out.Obligations = nil // keep the files small: violations and known findings carry everything the tools need
+		b, _ := json.MarshalIndent(out, "", " ")
+		if werr := os.WriteFile(filepath.Join(dir, prop+".json"), b, 0o644); werr != nil {
+			fmt.Fprintln(os.Stderr, werr)
+			return 2
+		}
+		if out.Fatal != "" || len(out.Violations) > 0 {
+			code = 1
+		}
+	}
+	return code
+}
+
 func main() {
 	prop := flag.String("prop", "", "property id (C01..C20)")
+	props := flag.String("props", "", "comma-separated property ids: evaluate all of them on one loaded program, raw outputs to -rawdir (tools only)")
+	rawDir := flag.String("rawdir", "", "directory for the raw outputs of -props")
 	tier := flag.String("tier", "quick", "quick|thorough")
 	repo := flag.String("repo", "/repo", "repository working tree to analyse")
 	verif := flag.String("verif", "/verif", "verification root (known_findings.json, evidence/)")
@@ -110,6 +160,13 @@ func main() {
 	if !ok {
 		fmt.Fprintf(os.Stderr, "unknown variant %s\n", *variant)
 		os.Exit(2)
+	}
+	if *props != "" {
+		if *rawDir == "" {
+			fmt.Fprintln(os.Stderr, "-props needs -rawdir")
+			os.Exit(2)
+		}
+		os.Exit(analyseMany(strings.Split(*props, ","), *repo, *verif, v, *rawDir))
 	}
 	out := analyse(*prop, *repo, *verif, v)
 	if *raw != "" {
